@@ -200,6 +200,37 @@ pub fn replay(args: &Args, s: &mut Summary) {
                 }
                 continue;
             }
+            if args.opt("prop") == Some("C06") {
+                // the property itself: the file decodes as the file without the lines its parser rejects
+                let r = guarded("c06 records", || {
+                    let mut st = <Beatmap as DecodeBeatmap>::State::create(14);
+                    let verdicts: Vec<bool> = lines.iter().map(|l| match sec.as_str() {
+                        "General" => Beatmap::parse_general(&mut st, l).is_ok(),
+                        "Editor" => Beatmap::parse_editor(&mut st, l).is_ok(),
+                        "Metadata" => Beatmap::parse_metadata(&mut st, l).is_ok(),
+                        "Difficulty" => Beatmap::parse_difficulty(&mut st, l).is_ok(),
+                        "Events" => Beatmap::parse_events(&mut st, l).is_ok(),
+                        _ => Beatmap::parse_colors(&mut st, l).is_ok(),
+                    }).collect();
+                    let mut kept = format!("osu file format v14\n\n[{sec}]\n");
+                    for (l, ok) in lines.iter().zip(verdicts.iter()) {
+                        if *ok {
+                            kept.push_str(l);
+                            kept.push('\n');
+                        }
+                    }
+                    let a = rosu_map::from_str::<Beatmap>(&text).unwrap();
+                    let b = rosu_map::from_str::<Beatmap>(&kept).unwrap();
+                    (verdicts, crate::framing::beatmap_diff(&a, &b))
+                });
+                s.checks += 1;
+                match r {
+                    Err(p) => s.mismatch("panic", json!({"text": text, "panic": p})),
+                    Ok((v, Some(d))) => s.mismatch(&format!("rejected-record-has-effect:{sec}"), json!({"text": text, "verdicts": v, "diff": d})),
+                    Ok(_) => {}
+                }
+                continue;
+            }
             let label = format!("records replay {text:?}");
             let r = guarded(&label, || {
                 // per-line verdicts through the public parse function of the section's own decoder
